@@ -42,6 +42,7 @@ def setup(ctx):
     ctx.require("monitor", "real_middleware_scenarios", 50)
     ctx.require("monitor", "l1_scenarios", 500)
     ctx.require("monitor", "responses_judged", 300)
+    ctx.require("monitor", "l2_bounded_pipe_scenarios", 20)
     ctx.require("monitor", "l2_scenarios", 20)
     ctx.require("monitor", "l3_connections", 10)
 
@@ -598,6 +599,9 @@ def run_l2(ctx):
         scn["cuts"] = list(bytesgen.random_cuts(rng, len(data), rng.choice([0, 0, 1, 2, 4]))) if len(data) > 1 else []
         scn["coalesce"] = rng.random() < 0.3
         scn["stall"] = rng.random() < 0.15
+        # how much the network takes at once: unlimited, or a pipe of a few bytes / a few KiB towards a reader that
+        # is slower than the server (what does not fit waits in the transport's buffer and is still owed)
+        scn["capacity"] = rng.choice([None, None, 16, 300, 4096])
         obs = run_l2_scenario(ctx, scn, tlsbench)
         if obs is None:
             continue
@@ -635,6 +639,10 @@ def run_l2_scenario(ctx, scn, tlsbench):
         if not ok:
             ctx.inconclusive_because(f"L2 handshake failed on {scn['backend']}: {bench.error}")
             return None
+        if scn.get("capacity") is not None and not scn["coalesce"]:
+            # (the pipe narrows once the session is up: the handshake helper wants whole flights)
+            bench.prompt_reader(scn["capacity"])
+            ctx.count("monitor", "l2_bounded_pipe_scenarios")
         if not scn["coalesce"]:
             for ch in bytesgen.split(data, scn["cuts"]):
                 bench.client_send(ch)
